@@ -155,6 +155,79 @@ fn expand(shape: &Shape, len: usize, seed: u64) -> Vec<u8> {
     }
 }
 
+/// A history of compression calls made on ONE dedicated thread (so every per-thread context or
+/// buffer the library keeps starts fresh and sees exactly this history): an incompressible input
+/// of `base` bytes first, then every length in a window below and above it. Incompressible input
+/// makes the compressed frame LARGER than the input, so anything sized from the input length (or
+/// from an earlier, slightly larger call) instead of the compress bound shows up here.
+#[derive(Clone, Debug, Hash, Serialize, Deserialize)]
+pub struct SweepCase {
+    pub base: usize,
+    pub seed: u64,
+    pub level: i32,
+    /// true: bytes 16..=255 (stored one per byte); false: random ACGT at 4x the length (packs to random bytes)
+    pub wide: bool,
+    /// lengths visited in decreasing order (larger calls come first) instead of increasing
+    pub descending: bool,
+}
+
+pub fn check_sweep(case: &SweepCase) -> Report {
+    let c = case.clone();
+    let res = std::thread::spawn(move || -> Result<(u64, bool), String> {
+        let mut r = SplitMix::new(c.seed);
+        let hi = c.base + (c.base >> 8) + 80;
+        let lo = c.base.saturating_sub(300);
+        let mul = if c.wide { 1 } else { 4 };
+        let buf: Vec<u8> = (0..hi * mul).map(|_| if c.wide { 16 + r.below(240) as u8 } else { r.below(4) as u8 }).collect();
+        let one = |len: usize, reference: bool| -> Result<(), String> {
+            let d = buf[..len * mul].to_vec();
+            let pack = compress_segment_configured(&d, c.level).map_err(|e| format!("compress_segment_configured({} incompressible bytes, level {}) failed: {}", d.len(), c.level, e))?;
+            match decompress_segment_with_marker(&pack, 0) {
+                Ok(v) if v == d => {}
+                Ok(v) => return Err(format!("pack round trip of {} incompressible bytes returned {} bytes", d.len(), v.len())),
+                Err(e) => return Err(format!("pack round trip of {} incompressible bytes failed: {}", d.len(), e)),
+            }
+            if reference {
+                let (comp, marker) = compress_reference_segment(&d).map_err(|e| format!("compress_reference_segment({} incompressible bytes) failed: {}", d.len(), e))?;
+                match decompress_segment_with_marker(&comp, marker) {
+                    Ok(v) if v == d => {}
+                    _ => return Err(format!("reference round trip of {} incompressible bytes (marker {}) differs", d.len(), marker)),
+                }
+            }
+            Ok(())
+        };
+        let mut calls = 0u64;
+        one(c.base, true)?;
+        let lens: Vec<usize> = if c.descending { (lo..=hi).rev().collect() } else { (lo..=hi).collect() };
+        for (i, len) in lens.into_iter().enumerate() {
+            one(len, i % 16 == 0)?;
+            calls += 1;
+        }
+        Ok((calls, hi * mul >= 65536))
+    })
+    .join();
+    match res {
+        Ok(Ok((_calls, big))) => Report::pass(true).label(if case.wide { "sweep-wide" } else { "sweep-acgt" }).label_if(big, "len>=64k").label_if(case.descending, "sweep-descending"),
+        Ok(Err(e)) => Report::fail(e),
+        Err(_) => Report::fail("compression sweep panicked".to_string()),
+    }
+}
+
+fn sweep_strat() -> impl Strategy<Value = SweepCase> {
+    let base = prop_oneof![
+        2 => Just(65536usize), 1 => Just(131072usize), 1 => Just(60000usize), 1 => Just(32768usize),
+        3 => 1usize..4096, 4 => 4096usize..150_000,
+    ];
+    let level = prop_oneof![3 => Just(1), 2 => Just(3), 1 => Just(9), 1 => Just(13), 1 => Just(17), 1 => Just(19)];
+    (base, any::<u64>(), level, prop::bool::weighted(0.7), any::<bool>()).prop_map(|(base, seed, level, wide, descending)| SweepCase {
+        base: if wide { base } else { (base / 4).max(1) },
+        seed,
+        level,
+        wide,
+        descending,
+    })
+}
+
 fn strat(max_len: usize) -> impl Strategy<Value = BytesCase> {
     let alphabet = prop_oneof![4 => Just(4u8), 2 => Just(5u8), 2 => Just(6u8), 1 => Just(7u8), 2 => Just(16u8), 1 => Just(17u8), 1 => Just(31u8)];
     let shape = prop_oneof![
@@ -258,12 +331,19 @@ pub fn run(ctx: &Ctx, stats: &mut Stats) {
     run_exhaustive(ctx, stats, "exh-boundaries", boundary_strings(), &check);
     let n = ctx.tier.pick(24_000, 400_000);
     run_prop(ctx, stats, "random", n, strat(100_000), &check);
+    run_prop(ctx, stats, "sweep-incompressible", ctx.tier.pick(64, 1_500), sweep_strat(), &check_sweep);
     if ctx.tier == Tier::Thorough || std::env::var("VERIF_FUZZ").is_ok() {
         crate::fuzzing::run_stage(ctx, stats, "pack", ctx.tier.pick(200_000, 3_000_000));
     }
 }
 
-pub fn replay(_ctx: &Ctx, _stage: &str, case: &Value) -> Report {
+pub fn replay(_ctx: &Ctx, stage: &str, case: &Value) -> Report {
+    if stage == "sweep-incompressible" {
+        return match from_case::<SweepCase>(case) {
+            Ok(c) => check_sweep(&c),
+            Err(e) => Report::fail(e),
+        };
+    }
     match from_case::<BytesCase>(case) {
         Ok(c) => check(&c),
         Err(e) => Report::fail(e),
@@ -273,7 +353,7 @@ pub fn replay(_ctx: &Ctx, _stage: &str, case: &Value) -> Report {
 pub const INFO: PropInfo = PropInfo {
     id: "C12",
     level: "exploration",
-    rule: "cases = byte strings; exhaustive: all strings of length <=8 over {0..3}, <=6 over {0..5}, <=4 over {0..15}, <=8 over {0,255}, and every length 0..40 with the maximum symbol at each width boundary 3/4, 5/6, 15/16 (tuple bijection on all, ZSTD paths on every 16th); random: 0..100 kB strings (uniform over alphabets 4/5/6/7/16/17/31, periodic with period 4..31 and noise 0..70% to land on both sides of the 0.5 repetitiveness threshold, ACGT+N, constant, arbitrary bytes) at levels 13/17/19/1..19. Oracles: inverse functions, the packed-length / marker rule, an independent unpacker, ZSTD via the zstd crate, fresh-thread vs reused-context byte equality. Non-trivial = packed width > 1, length > width and length not divisible by the width; distinct = distinct (bytes, level).",
+    rule: "cases = byte strings; exhaustive: all strings of length <=8 over {0..3}, <=6 over {0..5}, <=4 over {0..15}, <=8 over {0,255}, and every length 0..40 with the maximum symbol at each width boundary 3/4, 5/6, 15/16 (tuple bijection on all, ZSTD paths on every 16th); random: 0..100 kB strings (uniform over alphabets 4/5/6/7/16/17/31, periodic with period 4..31 and noise 0..70% to land on both sides of the 0.5 repetitiveness threshold, ACGT+N, constant, arbitrary bytes) at levels 13/17/19/1..19; sweep-incompressible: per case one dedicated thread compresses an incompressible input (bytes 16..255, or random ACGT that packs to random bytes) of a base length (64 KiB, 128 KiB, 60000, 32 KiB or random 1..150000) and then every length from base-300 to base+base/256+80, ascending or descending, round-tripping each as a delta pack and every 16th as a reference segment. Oracles: inverse functions, the packed-length / marker rule, an independent unpacker, ZSTD via the zstd crate, fresh-thread vs reused-context byte equality. Non-trivial = packed width > 1, length > width and length not divisible by the width; distinct = distinct (bytes, level).",
     assumptions: &["the zstd crate's decoder is the reference for ZSTD frames"],
     needs_cli: false,
     needs_checked: false,
